@@ -9,14 +9,16 @@ package input
 //@   ensures [nil_iff] (result == nil) <==> (i == nil)
 //@   ensures [value] i != nil ==> *result == *i
 
+// (The merge functions carry every property whose statement ranges over multi-file configurations: the Input that the
+// validators and compile steps see is the merged one.)
 //@ func mergePtr
-//@   property C09
+//@   property C09 C02 C03 C04 C05 C13 C14 C15
 //@   ensures [nil_iff] (result == nil) <==> (a == nil && b == nil)
 //@   ensures [later_wins] b != nil ==> *result == *b
 //@   ensures [earlier_kept] b == nil && a != nil ==> *result == *a
 
 //@ func mergeMap
-//@   property C09 C08
+//@   property C09 C08 C02 C03 C04 C05 C13 C14 C15
 //@   ensures [nil_iff] (result == nil) <==> (a == nil && b == nil)
 //@   ensures [dom] forall k string :: (k in result) <==> (k in a || k in b)
 //@   ensures [later_wins] forall k string :: k in b ==> result[k] == b[k]
@@ -53,7 +55,7 @@ package input
 //@      len(x) == len(y) && ((x == nil) <==> (y == nil)) && (forall j int :: 0 <= j && j < len(x) ==> x[j] == y[j])
 
 //@ func mergeMeta
-//@   property C09
+//@   property C09 C02 C03 C04 C05 C13 C14 C15
 //@   ensures [pkg] optMerged(result.Pkg, m1.Pkg, m2.Pkg)
 //@   ensures [container_type] optMerged(result.ContainerType, m1.ContainerType, m2.ContainerType)
 //@   ensures [container_constructor] optMerged(result.ContainerConstructor, m1.ContainerConstructor, m2.ContainerConstructor)
@@ -63,12 +65,12 @@ package input
 //@   ensures [functions C09 C15 C03] mapMergedSS(result.Functions, m1.Functions, m2.Functions)
 
 //@ func mergeArgs
-//@   property C09
+//@   property C09 C02 C03 C04 C05 C13 C14 C15
 //@   ensures [later_nonempty_replaces] len(b) > 0 ==> sameAnys(result, b)
 //@   ensures [earlier_kept] len(b) == 0 ==> sameAnys(result, a)
 
 //@ func mergeService pure
-//@   property C09 C04
+//@   property C09 C04 C02 C03 C05 C13 C14 C15
 //@   ensures [getter] optMerged(result.Getter, s1.Getter, s2.Getter)
 //@   ensures [must_getter] optMergedBool(result.MustGetter, s1.MustGetter, s2.MustGetter)
 //@   ensures [type] optMerged(result.Type, s1.Type, s2.Type)
@@ -89,7 +91,7 @@ package input
 //@   ensures [tags_later_by_pos] forall q int :: len(s1.Tags) <= q && q < len(s1.Tags) + len(s2.Tags) ==> result.Tags[q] == s2.Tags[q - len(s1.Tags)]
 
 //@ func mergeServices
-//@   property C09
+//@   property C09 C02 C03 C04 C05 C13 C14 C15
 //@   ensures [nonnil] result != nil
 //@   ensures [dom] forall k string :: (k in result) <==> (k in a || k in b)
 //@   ensures [only_earlier] forall k string :: k in a && !(k in b) ==> result[k] == a[k]
@@ -107,7 +109,7 @@ package input
 //@     invariant [both] forall k string :: k in visited && k in a ==> r[k] == mergeService(a[k], b[k])
 
 //@ func Merge pure
-//@   property C09 C04
+//@   property C09 C04 C02 C03 C05 C13 C14 C15
 //@   ensures [version] optMergedVersion(result.Version, i1.Version, i2.Version)
 //@   ensures [meta_pkg] optMerged(result.Meta.Pkg, i1.Meta.Pkg, i2.Meta.Pkg)
 //@   ensures [meta_container_type] optMerged(result.Meta.ContainerType, i1.Meta.ContainerType, i2.Meta.ContainerType)
@@ -295,7 +297,7 @@ package input
 //@   property C11 C14
 //@   ensures [equiv] matches(x, regexMetaImport) <==> inLang(x, importL())
 //@ lemma lang_MetaImportAlias(x string)
-//@   property C11 C14
+//@   property C11 C14 C08
 //@   ensures [equiv] matches(x, regexMetaImportAlias) <==> inLang(x, yamlTokenL())
 //@ lemma lang_MetaFn(x string)
 //@   property C11
